@@ -417,6 +417,8 @@ class C17(PropBase):
         n_j = 400 if quick else 20000
         for _ in range(n_j):
             out.append(self.mk_journal(rng))
+        for _ in range(60 if quick else 3000):
+            out.append(self.mk_priced(rng))
         # (c) register / balance-group boundary journals (journal-level tie of `regtxt` / `balgrptxt`)
         n_rb = 160 if quick else 6000
         for _ in range(n_rb):
@@ -500,6 +502,33 @@ class C17(PropBase):
                 sel_grp = rng.sample(names, rng.randrange(1, len(names) + 1))
         return self.mk_run(rng, cfg, txns, mn, mx, "journal" + ("+sel" if (sel or sel_reg or sel_grp) else ""), sel,
                            sel_reg=sel_reg, sel_grp=sel_grp, group_by=rng.choice(GROUP_BYS))
+
+    def mk_priced(self, rng):
+        """rounding is display only also under price conversion: the converted figures (amount x rate, which needs more
+        decimals than either factor) are summed exactly inside the kernel and rounded once, when printed"""
+        mn, mx = gen_scale(rng)
+        if rng.random() < 0.7:
+            mx = rng.randrange(0, 8)
+            mn = rng.randrange(0, mx + 1)
+        da, dr = rng.randrange(0, 4), rng.randrange(1, 7)
+        rate = "%d.%s" % (rng.randrange(0, 40), "".join(rng.choice("123456789") for _ in range(dr)))
+        accts = ["a:%s" % x for x in "pqrs"[:rng.randrange(1, 4)]]
+        txns = []
+        for i in range(rng.randrange(1, 6)):
+            h = common.gen_header(rng, {}, {"p_uuid": 0.0, "p_loc": 0.0, "p_tags": 0.0, "p_comments": 0.0, "p_code": 0.0, "p_desc": 0.0})
+            amt = "%d%s" % (rng.randrange(1, 500), ("." + "".join(rng.choice("123456789") for _ in range(da))) if da else "")
+            if rng.random() < 0.3:
+                amt = "-" + amt
+            neg = amt[1:] if amt.startswith("-") else "-" + amt
+            unit = {"comm": "XAG", "opening": None, "closing": None}
+            h["posts"] = [{"acct": rng.choice(accts), "amount": amt, "unit": unit, "comment": None},
+                          {"acct": "e:x", "amount": neg, "unit": unit, "comment": None}]
+            h["last"] = None
+            txns.append(h)
+        cfg = {"price": {"db": "P 2019-01-01T00:00:00Z XAG %s EUR\n" % rate, "lookup": "last-price"}, "report_commodity": "EUR"}
+        c = self.mk_run(rng, cfg, txns, mn, mx, "priced", None, group_by=rng.choice(GROUP_BYS))
+        c["rate"] = rate
+        return c
 
     def mk_run(self, rng, cfg, txns, mn, mx, kind, sel, sel_reg=None, sel_grp=None, group_by="month"):
         cfg = dict(cfg)
@@ -678,6 +707,8 @@ class C17(PropBase):
     def model_case(self, case):
         if case["op"] == "fmt":
             return {"op": "fmt", "d": case["d"], "scale": case["scale"]}
+        if case.get("kind") == "priced":
+            return None     # price conversion belongs to C07's model; here the implementation is judged by the oracle
         c = {k: v for k, v in case.items() if k not in ("text",)}
         c["cfg"] = model_cfg(case.get("cfg", {}))
         c["want"] = ["baltxt", "regtxt", "balgrptxt"]
@@ -926,6 +957,10 @@ class C17(PropBase):
             return crashed
         txns = (impl["out"].get("txns") or {})
         txns = txns["v"] if txns.get("r") == "OK" else None
+        if case.get("kind") == "priced":
+            # the register of a converted run shows the original amount beside the converted total (two commodities per
+            # row): judged by C07; here the balance figures against the exact converted sums
+            return self.oracle_balance(case, impl, ex, txns, mn, mx)
         return self.oracle_balance(case, impl, ex, txns, mn, mx) or \
             self.oracle_register(case, impl, ex, txns, mn, mx) or \
             self.oracle_balgrp(case, impl, ex, txns, mn, mx)
@@ -983,6 +1018,12 @@ class C17(PropBase):
         posts = None
         if txns is not None:
             posts = [(p["comm"], p["acct"], p["amount"]) for t in txns for p in t["posts"]]
+        if case.get("rate") and posts is not None:
+            # converted postings: exact value = amount x rate in the report commodity
+            r_ = decimal.Decimal(case["rate"])
+            with decimal.localcontext() as ctx:
+                ctx.prec = 80
+                posts = [("EUR", a, str(decimal.Decimal(v) * r_)) if c == "XAG" else (c, a, v) for c, a, v in posts]
         return self.check_block("balance", srows, sdel, erows, edel, posts, mn, mx)
 
     def oracle_register(self, case, impl, ex, txns, mn, mx):
